@@ -87,6 +87,21 @@ def set_costs_inplace(inp, costs):
         inp.costs[event] = pkg.INFINITY if (value == INF and pkg.use_infinity_object({"costs": costs})) else value
 
 
+def maybe_alt_families(case, every=4):
+    """One case in `every` (by content) gets family names whose spellings are related: prefixes of one another, natural
+    vs string order differing, digit-leading (g1/g10/g100, 16S, trnA, x1y10/x1y9 ...).  The names carry no meaning."""
+    from . import gen
+    from .runner import case_hash
+
+    if "leaf_syntenies" not in case or int(case_hash(case), 16) % every:
+        return case
+    fams = sorted({f for v in case["leaf_syntenies"].values() for f in v})
+    if not all(f[:1] == "g" and f[1:].isdigit() for f in fams):
+        return case
+    fmap = {f: ["g1", "g10", "g100", "g2", "16S", "trnA", "g11", "x1y10", "x1y9", "G2", "0", "g"][int(f[1:]) % 12] for f in fams}
+    return gen.rename_families(case, fmap)
+
+
 def validate_output(inst: Instance, out, algo, policy, prescribed_root=None):
     """V-MAP (+ V-ORD / V-UNO), finite cost, package cost == recount.
     Returns (mapping, labelling or None, recount total)."""
